@@ -13,7 +13,7 @@ use super::scen::{Case, Op, SRule, DirPart, ruler_dir, split_rules};
 use super::simsys::{World, Disk, Printed, RecPrinter};
 use super::util::{cache_name_of, show_bytes, H64};
 
-pub const STEP_BOUND : u32 = 60_000;
+pub const STEP_BOUND : u32 = 150_000;
 
 // ---------------------------------------------------------------- verdicts
 
@@ -125,13 +125,16 @@ pub struct InvResult
 pub fn invoke(world : &World, is_build : bool, goal : Option<String>, rulefiles : Vec<String>, sched : SchedSpec) -> InvResult
 {
     let clock_before = world.snapshot().1;
+    // the bound grows with the workspace (a crowd of 220 rules over 300 leaves legitimately takes
+    // 30 000+ visible operations): 150 000 + 400 per file on the disk
+    let step_bound = STEP_BOUND.saturating_add(400u32.saturating_mul(world.snapshot().0.file_count() as u32));
     world.tick();
     let sys = world.system();
     let mut printer = RecPrinter::new();
     let out =
     {
         let p = &mut printer;
-        rt::run_sim(sched, STEP_BOUND, move ||
+        rt::run_sim(sched, step_bound, move ||
         {
             if is_build
             {
